@@ -24,7 +24,7 @@ pub fn def() -> CheckDef {
         },
         gen,
         run,
-        rule: "one workload (its fault positions spread over 4 cases, k mod 4) = a drawn valid image (built by a drawn history on a fault-free disk; V3/V4; streams below and above the cutoff) and a drawn read-only workload: open (drawn max_buffer_size, permissive or strict), walk, entry lookups, and per stream a script of read, read-loop, fill_buf/consume and seeks forwards, backwards and across the buffer window. A fault-free reference run counts the N underlying read/seek calls; then the workload is re-run with an injected failure at EVERY position k in 1..N (F-RE or F-SE, whichever call k is), and with pairs (k1,k2): all pairs when N <= 150, else (k,k+1..k+8) plus a seeded sample. Every fault plan is run under two caller policies: after an Err the same call is retried on the same handle (open is always retried, on the same bytes), or the script simply carries on. Every third workload has a V3 image of 70-300 KB (several FAT sectors: one big stream, or 8-12 medium streams all read completely). Oracle: every call returns Err or what the fault-free run returned; every byte a handle returns equals truth[p..p+n] where p is the position the handle itself reported just before the call; nothing panics. sub_runs = number of faulted executions. Non-trivial: a fault fired and at least one stream read completed afterwards; distinct = distinct seam-log hashes. Every position is injected once more with another error kind (UnexpectedEof, InvalidData, InvalidInput, NotFound, WouldBlock, TimedOut, PermissionDenied, WriteZero) or as a premature end of file (read returns 0 bytes). A failed read() / fill_buf() / seek() must leave the position the handle reports unchanged (rule position-moved-by-failed-call). Every fourth workload is tiny, so that all pairs of positions are enumerated.",
+        rule: "one workload (its fault positions spread over 4 cases, k mod 4) = a drawn valid image (built by a drawn history on a fault-free disk; V3/V4; streams below and above the cutoff) and a drawn read-only workload: open (drawn max_buffer_size, permissive or strict), walk, entry lookups, and per stream a script of read, read-loop, fill_buf/consume and seeks forwards, backwards and across the buffer window. A fault-free reference run counts the N underlying read/seek calls; then the workload is re-run with an injected failure at EVERY position k in 1..N (F-RE or F-SE, whichever call k is), and with pairs (k1,k2): all pairs when N <= 150, else (k,k+1..k+8) plus a seeded sample. Every fault plan is run under two caller policies: after an Err the same call is retried on the same handle (open is always retried, on the same bytes), or the script simply carries on. Every third workload has a V3 image of 70-300 KB (several FAT sectors: one big stream, or 8-12 medium streams all read completely). Oracle: every call returns Err or what the fault-free run returned; every byte a handle returns equals truth[p..p+n] where p is the position the handle itself reported just before the call; nothing panics. sub_runs = number of faulted executions. Non-trivial: a fault fired and at least one stream read completed afterwards; distinct = distinct seam-log hashes. Every position is injected once more with another error kind (UnexpectedEof, InvalidData, InvalidInput, NotFound, WouldBlock, TimedOut, PermissionDenied, WriteZero) or as a premature end of file (read returns 0 bytes). A failed read() / fill_buf() / seek() must leave the position the handle reports unchanged (rule position-moved-by-failed-call). Every fourth workload is tiny, so that all pairs of positions are enumerated. Every position is also injected as a SHORT read at k followed by a failure at k+1 (the call that fetches the rest).",
         assumptions: &["truth = the logical content the image was built with (checked against a fault-free dump first)", "position after a failed call is whatever the handle itself reports (the statement leaves it open)"],
         cpu_limit_s: 600,
         fault_kinds: "F-RE, F-SE at every k (enumerated), pairs",
@@ -491,6 +491,12 @@ pub fn run(case: &Case, _known: &BTreeSet<String>) -> Outcome {
                 // "0 bytes"), drawn per position: failures are not all ErrorKind::Other
                 let flavour = 1 + ((k + case.param("pair_sample_seed", 0) as u64) % crate::disk::FLAVOURS as u64) as u8;
                 if !run_plan_mode(&mut o, vec![Fault { k, kind: FaultKind::FailAs { flavour } }], 1 + (k % 2) as u8) {
+                    break 'enumerate;
+                }
+                // a SHORT read at k (legal for any reader), then the failure at the call that fetches
+                // the rest: whatever was assembled from the first part must not survive as data
+                let short = 1 + ((k * 37 + case.param("pair_sample_seed", 0) as u64) % 300) as usize;
+                if !run_plan_mode(&mut o, vec![Fault { k, kind: FaultKind::Short { n: short } }, Fault { k: k + 1, kind: FaultKind::Fail }], 1 + ((k / nslices) % 2) as u8) {
                     break 'enumerate;
                 }
             }
